@@ -41,6 +41,7 @@ def run(ctx):
     _termination(ctx, repo, folder, m, sweep)
     _payloads(ctx, repo, folder, m)
     _offsets(ctx, m, repo, folder)
+    _repeat(ctx, m, repo, folder)
 
 
 # --------------------------------------------------------------------------- (a)
@@ -621,6 +622,77 @@ def _offsets(ctx, m, repo=None, folder=None):
                       "DCode.%s returns %s for the %s; instruction offsets are the prefix sums of get_length(), expected %s" % (name, show(got)[:60], what, show(want)[:40]),
                       detail="%s -> %s" % (what, show(want)[:40]))
     ctx.floor("offset_cases", 10)
+
+def _repeat(ctx, m, repo=None, folder=None):
+    """DCode.get_instructions is executed twice on one DCode object, with the sweep (LinearSweepAlgorithm.get_instructions) replaced by
+    (a) a sweep that yields two instructions and (b) a sweep that yields one instruction and then reports an invalid instruction:
+    the second disassembly must report exactly what the first did -- the same instructions, resp. the invalid instruction again
+    (a cache that survives a failed sweep would silently turn broken code into a shorter valid stream)."""
+    repo = repo or ctx.repo
+    folder = folder or Folder(repo)
+    dcode = m.cls("DCode")
+    f = dcode.lookup("get_instructions")
+    ctx.require(f is not None, "DCode.get_instructions vanished")
+    ctx.analysed(f)
+    sweep = m.cls("LinearSweepAlgorithm").lookup("get_instructions")
+    ctx.require(sweep is not None, "LinearSweepAlgorithm.get_instructions vanished")
+
+    class _Ins:
+        def __init__(self, k):
+            self.k = k
+
+        def __repr__(self):
+            return "<ins %d>" % self.k
+
+    ins = [_Ins(0), _Ins(1)]
+    calls = []
+    for label, fails in (("valid code", False), ("code with an invalid instruction after the first one", True)):
+        def func_hook(it, target, args, kwargs, e, func, fails=fails):
+            if target is sweep:
+                calls.append(1)
+                if fails:
+                    # the generator yields the decodable prefix and then raises: consumers that filled a container keep the prefix
+                    it.__dict__["_partial_yield"] = [ins[0]]
+                    raise Raised("InvalidInstruction", e, "invalid instruction (model sweep)")
+                return list(ins)
+            return NotImplemented
+
+        def method(it, recv, name, args, kwargs, e, func):
+            if isinstance(recv, _Ins):
+                return Sym("ins.%s" % name)
+            return NotImplemented
+
+        helpers = {g.qualname for c in dcode.mro() for g in c.methods.values()}
+
+        def run(asg, func_hook=func_hook):
+            it = Interp(repo, folder, asg=dict(asg), hooks={"func": func_hook, "method": method, "inline_funcs": helpers})
+            o = Obj(dcode, "dcode")
+            o.attrs.update(CM=Sym("cm"), size=Sym("size"), insn=Sym("insn"), idx=0, cached_instructions=None, notes={})
+            out = []
+            for _ in range(2):
+                try:
+                    r = it.call_function(f, [], recv=o)
+                    out.append(("ok", list(r) if isinstance(r, (list, tuple)) else r))
+                except Raised as ex:
+                    out.append(("raises", ex.exc))
+            return out
+
+        res = explore(run)
+        ctx.require(len(res) == 1 and not isinstance(res[0][1], Raised), "DCode.get_instructions: the repeated run is outside the interpreter's fragment (%d paths)" % len(res))
+        first, second = res[0][1]
+        ctx.count("repeat_cases")
+        if first[0] == "ok" and not (isinstance(first[1], list) and all(isinstance(x, _Ins) for x in first[1])):
+            raise AnalysisError("DCode.get_instructions: the result %s is outside the interpreter's fragment" % show(first[1])[:100])
+        want = ("raises", "InvalidInstruction") if fails else ("ok", ins)
+        ok1 = first == want or (first[0] == "ok" and not fails and first[1] == ins)
+        ctx.check("repeat", "DCode.get_instructions on %s, first disassembly" % label, ok1, f, "first disassembly of %s -> %s" % (label, first[0]),
+                  "DCode.get_instructions on %s gives %s, expected %s" % (label, show(first)[:80], show(want)[:80]))
+        ok2 = second == first
+        ctx.check("repeat", "DCode.get_instructions on %s, second disassembly" % label, ok2, f, "second disassembly of %s -> %s" % (label, second[0]),
+                  "a second DCode.get_instructions on %s gives %s although the first gave %s: the outcome of disassembling the same code depends on an earlier call" % (
+                      label, show(second)[:80], show(first)[:80]), detail="second run = first run")
+    ctx.floor("repeat_cases", 2)
+
 
 MUTATION_TARGETS = [(DEX, "LinearSweepAlgorithm.get_instructions"), (DEX, "get_instruction_payload"),
                     (DEX, "FillArrayData.__init__"), (DEX, "FillArrayData.get_length"), (DEX, "FillArrayData.get_raw"),
